@@ -62,7 +62,7 @@ PROPOSED_KNOWN = (
 
 
 def mc(ctx, wd):
-    consts = {"MaxNodes": ctx.pick(3, 4), "MaxList": ctx.pick(2, 2)}
+    consts = {"MaxNodes": ctx.pick(3, 4), "MaxList": 2, "ChildFields": ctx.pick(1, 1)}
     invs = ["WalkIsPreOrder", "WalkEachOnce", "CloneAccepted", "ShallowRejected", "DroppedRejected", "Bounded"]
     rig.write_cfg(wd / "MC_AstTree.cfg", constants=consts, invariants=invs)
     r = ctx.tlc(wd, "MC_AstTree", workers=rig.NCPU, timeout=1700, coverage=not ctx.quick, must_pass=True)
